@@ -31,7 +31,7 @@ COMPONENTS = {"real": ["bob.input.RecipeSet.parse/generatePackages, Recipe.prepa
                        "bob.pathspec PackageSet queries incl. .bob-tree.sqlite3"],
               "stub": ["stat clock of project files", "name formatter (pure function of step)"],
               "not_exercised": ["sandbox-enabled graph (.bob-packages-sb.pickle)", "layers", "plugins"]}
-ASSUMPTIONS = ["every file modification changes the file's stat data (fresh mtime)"]
+ASSUMPTIONS = ["every file modification changes the file's stat data (fresh mtime, or at least ctime / inode)"]
 SHRINK = ["steps"]
 
 QUERIES = ["root", "//*", "root/*", "//r1", "/root//r2", "//*/r3", "root//*[\"${VA:-}\" == \"x\"]", "//r2/*"]
@@ -123,6 +123,21 @@ def gen_case(rng, tier, index):
                 st["edit"] = e
                 cur = projgen.apply_edit(cur, e, hist)
                 hist.append(cur)
+        if "edit" not in st and rng.random() < 0.5:
+            # an edit that keeps size and mtime of the file (in-place rewrite with restored time stamp,
+            # replacement by an equally sized file): only ctime / inode tell that it changed
+            names = [n for n in cur["order"] if cur["recipes"][n]["build"]]
+            if names:
+                n = rng.choice(names)
+                which = rng.choice(["build", "package"])
+                old = cur["recipes"][n]["salt"][which]
+                new = "".join(rng.choice("0123456789abcdef") for _ in old)
+                if new != old:
+                    e = {"kind": "salt", "recipe": n, "step": which, "value": new}
+                    st["edit"] = e
+                    st["keep_stat"] = True
+                    cur = projgen.apply_edit(cur, e, hist)
+                    hist.append(cur)
         if rng.random() < 0.35:
             st["defines"] = {rng.choice(projgen.VARPOOL): rng.choice(["x", "d1", "q%d" % rng.randrange(5)])}
         if rng.random() < 0.2:
@@ -193,6 +208,18 @@ def _dump(cwd, defines, cold, pkgck, queries):
     except BobError as e:
         return {"ok": False, "error": str(e)[:300]}
 
+def _restore_mtime(p, old):
+    """Put the old mtime back; make sure ctime or inode still tell the files apart (the
+    contract: every modification changes the file's stat data)."""
+    import time
+    for _ in range(200):
+        os.utime(p, ns=(old.st_atime_ns, old.st_mtime_ns))
+        st = os.lstat(p)
+        if (st.st_ctime_ns, st.st_ino) != (old.st_ctime_ns, old.st_ino):
+            return
+        time.sleep(0.002)
+    raise common.HarnessError("cannot make stat data of %s differ" % p)
+
 def _first_diff(a, b, prefix=""):
     if type(a) != type(b):
         return "%s: %r != %r" % (prefix, a, b)
@@ -235,8 +262,21 @@ def run_case(case):
             if st.get("edit"):
                 model = projgen.apply_edit(model, st["edit"], hist)
                 hist.append(model)
+                before = {}
+                if st.get("keep_stat"):
+                    for p in files:
+                        try:
+                            before[p] = os.lstat(os.path.join(proj, p))
+                        except OSError:
+                            pass
+                old_files = files
                 files = projgen.materialise(model, proj, clock, files)
                 stats.inc("edits")
+                if st.get("keep_stat"):
+                    for p, content in files.items():
+                        if p in before and old_files.get(p) != content and len(old_files.get(p, "")) == len(content):
+                            _restore_mtime(os.path.join(proj, p), before[p])
+                            stats.inc("edits_keeping_size_and_mtime")
             defines = st.get("defines", {})
             cold_dir = os.path.join(top, "cold%d" % n, "proj")
             os.makedirs(cold_dir)
